@@ -354,9 +354,14 @@ func c17SegmentKeepsAll(c *Ctx) {
 	// VerifyIndex validates segments built from the batch it received
 	if fn := c.mustFn("VerifyIndex"); fn != nil {
 		okB := false
-		for _, g := range withClosures(fn) {
-			for _, call := range calls(g, named("desync.newFileSeedSegment")) {
-				_ = call
+		// in VerifyIndex itself, its closures and helpers, or a worker type declared next to it
+		// ("g.Go(w.run)"): any function of the same source file
+		file := c.Fset.Position(fn.Pos()).Filename
+		for _, g := range c.libFuncsAll() {
+			if c.Fset.Position(g.Pos()).Filename != file {
+				continue
+			}
+			if len(calls(g, named("desync.newFileSeedSegment"))) > 0 {
 				okB = true
 			}
 		}
